@@ -41,11 +41,12 @@ theorem stored_path_is_clean_arg (l : Lib) (env : Env) (arg : Path) (ops : BitVe
     alLookup (clean arg) (l.add env arg ops nf).1.pathT = some wd := by
   unfold Lib.add recursivePath Lib.register
   simp only [Bool.not_false, if_true, hnew, Option.getD_none, Option.bind_none, hk, hfresh]
+  have hhas : alHas (clean arg) l.pathT = false := by simp [alHas, hnew]
   by_cases h0 : wd = 0
   · subst h0
-    simp [alLookup_insert_same]
+    simp [alLookup_insert_same, hhas]
   · have : (wd != 0) = true := by simpa using h0
-    simp only [this, if_true]
+    simp only [this, if_true, hhas, Bool.and_false, Bool.false_and, Bool.false_eq_true, if_false]
     constructor
     · rw [alLookup_erase_other _ _ _ h0, alLookup_insert_same]
     · rw [alLookup_insert_same]
